@@ -142,6 +142,8 @@ def redeclared(rng, d):
         if d[3]:
             lo2 = max(1, lo2)
             hi2 = max(lo2, hi2)
+        if max(abs(lo2), abs(hi2)) > 2 ** 53:
+            return d          # stated assumption of this check: ints beyond 2^53 (not exact in a double) are not generated
     elif d[3]:
         r = min(hi / lo, 1.5)
         lo2, hi2 = {"disjoint": (hi * r, hi * r * r), "wider": (lo / r, hi * r), "narrower": (lo * r ** 0.25, hi / r ** 0.25)}[mode]
